@@ -62,5 +62,12 @@ InvOptions ==
       /\ ((\A j \in 1..NIns : vSeq[2 * j] = 0) =>
             r.t = (LET b == ParseText(Join(Bases[vSeq[1]], <<cSP>>)) IN b.t))
 
-EmitVector == Len(vSeq) >= 1 => PrintT(ToJson([i |-> Eager(Text), e |-> ParseText(Eager(Text)), tag |-> "C13"]))
+\* each input also with blanks after the last word / around the whole (options are honoured "wherever
+\* they stand", also when nothing but blanks follows them)
+EmitVector ==
+  Len(vSeq) >= 1 =>
+    LET t == Eager(Text) IN
+    /\ PrintT(ToJson([i |-> t, e |-> ParseText(t), tag |-> "C13"]))
+    /\ PrintT(ToJson([i |-> t \o <<cSP>>, e |-> ParseText(t \o <<cSP>>), tag |-> "C13"]))
+    /\ PrintT(ToJson([i |-> <<cTAB>> \o t \o <<cLF>>, e |-> ParseText(<<cTAB>> \o t \o <<cLF>>), tag |-> "C13"]))
 =============================================================================
